@@ -76,3 +76,10 @@ Print Assumptions C01_gen_exact.
 Print Assumptions C01_gen_exact_turn.
 Print Assumptions gen_total.
 Print Assumptions gen_exact_magic.
+
+(* the model constants equal the ones translated from the source on this run *)
+From ChessV Require ConstsTie.
+Check ConstsTie.rights_masks_tie.
+Check ConstsTie.promotions_tie.
+Check ConstsTie.search_key_arity_tie.
+Check ConstsTie.clock_key_threshold_tie.
